@@ -162,3 +162,142 @@ Section Round.
     destruct (body_loc c lay ctx e _) as [e' pe]. reflexivity.
   Qed.
 End Round.
+
+(** *** The nodes themselves *)
+
+Lemma not_bracket_of_first : forall s, hd_is ustart s = true -> hd_is tok_stop s = false ->
+    hd_in (fun ch => negb (bstart ch)) s = true.
+Proof.
+  intros [|ch s] H1 H2; cbn [hd_is hd_in] in *; [discriminate|].
+  destruct (bstart ch) eqn:B; auto. destruct (bstart_facts ch B) as [_ T]. rewrite T in H2. discriminate.
+Qed.
+
+Lemma from_range_pspan : forall s1 p1 s2 p2, from_range (mkin s1 p1) (mkin s2 p2) = pspan p1 p2.
+Proof. reflexivity. Qed.
+
+Section Cores.
+  Variable c : cfg.
+
+  Lemma core_terminal : forall t d l sp, Core c (Terminal t d l sp).
+  Proof.
+    intros t d l sp lay ctx w p r n Hc W Hn [Hst [Ex1 Ex2]]. unfold parses. cbn [prec P body_txt body_loc].
+    cbn [wfb] in W. apply andb_true_iff in W as [Wl Wz]. apply N.eqb_eq in Wz. subst l.
+    destruct d as [dd|].
+    - rewrite !app_assoc_s.
+      assert (LR : lit_rest (Nat.leb 6 ctx)
+                 (append (gap_text (post_gap (nl_gap (lay []) 0))) (append (descr_text dd) r)))
+        by apply lit_rest_descr.
+      destruct (spelled_first (nl_esc (lay [])) (Nat.leb 6 ctx) t _ Wl LR) as (S1 & S2 & S3).
+      rewrite atom_not_bracket by (apply not_bracket_of_first; assumption).
+      unfold terminal_opt_description_expr. rewrite terminal_spelled by assumption. cbn [obind].
+      rewrite opt_description_printed. cbn [obind fst snd]. rewrite from_range_pspan. reflexivity.
+    - rewrite app_nil_r_s. specialize (Ex1 eq_refl). specialize (Ex2 eq_refl).
+      destruct (spelled_first (nl_esc (lay [])) (Nat.leb 6 ctx) t _ Wl Ex2) as (S1 & S2 & S3).
+      rewrite atom_not_bracket by (apply not_bracket_of_first; assumption).
+      unfold terminal_opt_description_expr. rewrite terminal_spelled by assumption. cbn [obind].
+      rewrite opt_description_none by (rewrite rest_skip_i; exact Ex1).
+      cbn [obind fst snd]. rewrite from_range_pspan. reflexivity.
+  Qed.
+
+  Lemma core_nonterm : forall nm l sp, Core c (NontermRef nm l sp).
+  Proof.
+    intros nm l sp lay ctx w p r n Hc W Hn _. unfold parses. cbn [prec P body_txt body_loc].
+    cbn [wfb] in W. apply andb_true_iff in W as [Wn Wz]. apply N.eqb_eq in Wz. subst l.
+    cbn [append]. rewrite app_assoc_s. cbn [append].
+    unfold Atom, nonterm_expr. rewrite nonterm_printed by assumption. cbn [obind fst snd].
+    rewrite from_range_pspan. reflexivity.
+  Qed.
+
+  Lemma atom_lbrace : forall n s p,
+      Atom c n (mkin (String LBRACE s) p)
+      = (command_expr (mkin (String LBRACE s) p) <|> terminal_opt_description_expr c (mkin (String LBRACE s) p)).
+  Proof.
+    intros. unfold Atom, nonterm_expr, nonterm, optional_expr, parenthesized_expr, char_p. cbn [rest at_].
+    replace (Ascii.eqb LBRACE LT) with false by (vm_compute; reflexivity).
+    replace (Ascii.eqb LBRACE LBRACK) with false by (vm_compute; reflexivity).
+    replace (Ascii.eqb LBRACE LPAREN) with false by (vm_compute; reflexivity).
+    reflexivity.
+  Qed.
+
+  Lemma core_command : forall cm z l sp, Core c (Command cm z l sp).
+  Proof.
+    intros cm z l sp lay ctx w p r n Hc W Hn _. unfold parses. cbn [prec P body_txt body_loc].
+    cbn [wfb] in W. apply andb_true_iff in W as [W Wz]. apply andb_true_iff in W as [Wc Wb].
+    apply N.eqb_eq in Wz. subst l. apply negb_true_iff in Wb. subst z.
+    rewrite !app_assoc_s.
+    change (append LBRACE3 ?x) with (String LBRACE (String LBRACE (String LBRACE x))) at 1.
+    rewrite atom_lbrace.
+    change (String LBRACE (String LBRACE (String LBRACE ?x))) with (append LBRACE3 x).
+    unfold command_expr. rewrite command_printed by assumption. cbn [obind fst snd].
+    rewrite from_range_pspan. reflexivity.
+  Qed.
+
+  Lemma mstop_st0 : forall lay e r, st 0 r -> mstop lay 0 e r.
+  Proof. intros. apply mstop_low; auto. Qed.
+
+  Lemma core_optional : forall ch sp, M c ch -> Core c (Optional ch sp).
+  Proof.
+    intros ch sp HM lay ctx w p r n Hc W Hn _. unfold parses. cbn [prec P body_txt body_loc].
+    cbn [wfb] in W.
+    set (g0 := gap_text (nl_gap (lay []) 0)). set (g1 := gap_text (post_gap (nl_gap (lay []) 1))).
+    cbn [append]. rewrite !app_assoc_s. cbn [append].
+    set (rest1 := append g1 (String RBRACK r)).
+    assert (S0 : st 0 rest1) by apply st0_rbrack.
+    assert (Fo : first_ok (txt (sub lay 0) 0 ch) rest1)
+      by (apply (first_ok_any ch (sub lay 0) 0%nat w); auto; [lia|apply mstop_st0; auto]).
+    cbn [body_txt append] in Hn. rewrite !app_assoc_s in Hn. cbn [append String.length] in Hn.
+    fold g0 g1 in Hn. rewrite length_app_s in Hn. fold rest1 in Hn.
+    destruct n as [|m]; [lia|].
+    unfold Atom, nonterm_expr, nonterm, optional_expr, char_p. cbn [rest at_].
+    replace (Ascii.eqb LBRACK LT) with false by (vm_compute; reflexivity).
+    rewrite (proj2 (eqb_eq_a LBRACK LBRACK) eq_refl). cbn [obind fail].
+    rewrite multiblanks0_spec. cbn [obind]. unfold g0. rewrite skip_gap. fold g0.
+    rewrite skip_no_blank by (apply first_ok_hd; exact Fo).
+    rewrite expr_p_S.
+    pose proof (HM (sub lay 0) 0%nat w (adv_str g0 (adv_char LBRACK p)) rest1 m (Nat.le_0_l _) W) as X.
+    unfold parses in X. cbn [lvl Nat.eqb P] in X. rewrite X; [|lia|apply mstop_st0; auto].
+    destruct (loc c (sub lay 0) 0 ch (adv_str g0 (adv_char LBRACK p))) as [ch' p2]. cbn [obind fst snd].
+    rewrite multiblanks0_spec. cbn [obind]. unfold rest1, g1. rewrite skip_gap.
+    rewrite skip_no_blank by (vm_compute; reflexivity). cbn [rest at_].
+    rewrite (proj2 (eqb_eq_a RBRACK RBRACK) eq_refl). cbn [obind]. rewrite from_range_pspan. reflexivity.
+  Qed.
+
+  Lemma core_many1 : forall ch sp, M c ch -> Core c (Many1 ch sp).
+  Proof.
+    intros ch sp HM lay ctx w p r n Hc W Hn _. unfold parses. cbn [prec P body_txt body_loc].
+    cbn [wfb] in W. rewrite !app_assoc_s.
+    set (g0 := post_gap (nl_gap (lay []) 0)).
+    cbn [body_txt] in Hn. rewrite !app_assoc_s in Hn. fold g0 in Hn.
+    assert (MS : mstop (sub lay 0) 6 ch (append (gap_text g0) (append DOTS3 r))).
+    { split; [repeat split; intros; cbn [lvl Nat.eqb] in *; lia|].
+      intros _. destruct (many_rest (nl_gap (lay []) 0) r) as [Q1 Q2]. split; intros _; auto. }
+    rewrite U_Atom.
+    pose proof (HM (sub lay 0) 6%nat w p _ n ltac:(lia) W Hn MS) as X. unfold parses in X.
+    cbn [lvl Nat.eqb P] in X. rewrite X.
+    destruct (loc c (sub lay 0) 6 ch p) as [ch' p1]. cbn [obind fst snd].
+    unfold many1_tag. rewrite multiblanks0_spec. cbn [obind]. unfold g0. rewrite skip_gap.
+    rewrite skip_no_blank by (vm_compute; reflexivity).
+    unfold tag_p. cbn [rest at_]. change DOTS3 with "...". rewrite strip_prefix_self. cbn [obind].
+    rewrite from_range_pspan. reflexivity.
+  Qed.
+
+  Lemma core_dd : forall ch d sp, M c ch -> Core c (DistDescr ch d sp).
+  Proof.
+    intros ch d sp HM lay ctx w p r n Hc W Hn _. unfold parses. cbn [prec P body_txt body_loc].
+    cbn [wfb] in W. rewrite !app_assoc_s.
+    cbn [body_txt] in Hn. rewrite !app_assoc_s in Hn.
+    set (cx := if open_end ch then 7%nat else 4%nat) in *.
+    assert (Lv : lvl cx = 4%nat) by (subst cx; destruct (open_end ch); reflexivity).
+    assert (Cx : (cx <= 7)%nat) by (subst cx; destruct (open_end ch); lia).
+    assert (MS : mstop (sub lay 0) cx ch
+                   (append (gap_text (post_gap (nl_gap (lay []) 0))) (append (descr_text d) r))).
+    { split; [rewrite Lv; apply st4_descr|]. intros B. subst cx. destruct (open_end ch) eqn:O.
+      - unfold bare in B. apply andb_true_iff in B as [B _]. apply negb_true_iff in B. apply Nat.ltb_ge in B.
+        destruct ch; cbn [prec] in B; lia.
+      - split; intros X; [rewrite O in X; discriminate|]. destruct ch; try discriminate. destruct descr; discriminate. }
+    unfold I, subword_sequence_expr_opt_description. fold (SW c n).
+    pose proof (HM (sub lay 0) cx w p _ n Cx W Hn MS) as X. unfold parses in X. rewrite Lv in X. cbn [P] in X.
+    rewrite X. destruct (loc c (sub lay 0) cx ch p) as [ch' p1]. cbn [obind fst snd].
+    rewrite opt_description_printed. cbn [obind]. rewrite from_range_pspan. reflexivity.
+  Qed.
+End Cores.
